@@ -43,23 +43,27 @@ PROPS = {
                         "sampled histories, not exhaustive"],
     },
     "C02": {
-        "engine": "rt",
+        "engine": "rt+net",
         "technique": SIM_TECH,
         "level": "exploration",
         "level_text": "Seeded exploration: generated event programs (handlers scheduling children at arbitrary delays incl. zero, "
                       "roots before run and from at_sim_start, attempts to schedule into the past, non-zero start times, (n,t) swarm) "
                       "run on the real Runtime; every handler records SimTime::now() and the oracle compares it with the scheduled "
-                      "timestamp, monotonicity, exactly-once and accept/reject of every scheduling attempt. Sampled, not exhaustive.",
+                      "timestamp, monotonicity, exactly-once and accept/reject of every scheduling attempt. One program in twelve is a "
+                      "network simulation: handlers try send_at / schedule_at for past instants (must be rejected), and every "
+                      "delivery is compared with the instant a reference DES of the net layer predicts. Sampled, not exhaustive.",
         "level_note": "Trusted: the static expansion of the program (each event instance has a statically known timestamp). Delays are capped at 1e5 bucket widths so a fetch stays bounded.",
         "runs": {"quick": 2000000, "thorough": 50000000},
         "rule": "seeded event programs on the real Runtime<App>: forest of event instances with static timestamps, scheduled via "
                 "add_event / add_event_in, before run / from at_sim_start / from handlers, start time in {0, small, large}, "
                 "attempts to schedule before the current simulated time; distinct = distinct program hash; non-trivial = >= 1 "
                 "handler-scheduled event and (non-zero start time or >= 1 past attempt)",
-        "fault_probes": ["past_attempt", "past_root_attempt", "other_thread_built_a_runtime_during_a_handler"],
+        "fault_probes": ["past_attempt", "past_root_attempt", "other_thread_built_a_runtime_during_a_handler", "message_for_a_past_instant_attempted"],
         "expected_probes": ["past_attempt", "past_root_attempt", "nonzero_start_time", "zero_delay_child", "tie_adjacent_pairs", "run_beyond_2_pow_64_ns",
-                            "other_thread_built_a_runtime_during_a_handler", "clock_checked_under_stepping", "handler_panic_caught_by_the_driver", "helper_thread_read_the_clock", "program_late_in_a_long_simulation"],
-        "components": {"real": ["des::runtime::{Runtime, Builder, FutureEventSet}, des::time::SimTime, des-cqueue (real code)"],
+                            "other_thread_built_a_runtime_during_a_handler", "clock_checked_under_stepping", "handler_panic_caught_by_the_driver", "helper_thread_read_the_clock", "program_late_in_a_long_simulation",
+                            "message_for_a_past_instant_attempted", "net_handler_clock_checked"],
+        "components": {"real": ["des::runtime::{Runtime, Builder, FutureEventSet}, des::time::SimTime, des-cqueue (real code)",
+                                "des::net (Sim, modules, gates, send_at / schedule_at / send_in, event buffer; real code, one program in twelve)"],
                        "stub": ["Application / Event implementations: harness interpreter of the generated program"]},
         "assumptions": ["cqueue backend (default feature set)", "sampled programs, not exhaustive"],
     },
